@@ -49,7 +49,11 @@ func genRec(cfg Config, emit func(string, bool, []string)) {
 			mode = "oracle" // batch operations: decided by the oracle only
 			batch = 1
 		}
-		add("cfg %d %d %d %s%s", minB, maxB, roundSize, mode, map[int]string{0: "", 1: "-batch"}[batch])
+		set := ""
+		if c%2 == 1 {
+			set = "-set" // status kept in a reconciler.StatusSet
+		}
+		add("cfg %d %d %d %s%s%s", minB, maxB, roundSize, mode, set, map[int]string{0: "", 1: "-batch"}[batch])
 		nid := 1 + r.IntN(4)
 		clock := 0
 		for i := 0; i < steps; i++ {
@@ -94,18 +98,30 @@ type recObj struct {
 	Data   int
 	Other  int
 	Status reconciler.Status
+	// half of the cases keep the status in a StatusSet (the multi-reconciler API)
+	UseSet bool
+	Set    reconciler.StatusSet
 }
 
 func (o *recObj) TableHeader() []string { return []string{"ID", "Data", "Status"} }
 func (o *recObj) TableRow() []string {
-	return []string{strconv.FormatUint(o.ID, 10), strconv.Itoa(o.Data), o.Status.Kind.String()}
+	return []string{strconv.FormatUint(o.ID, 10), strconv.Itoa(o.Data), o.GetStatus().Kind.String()}
 }
 func (o *recObj) Clone() *recObj { c := *o; return &c }
 func (o *recObj) SetStatus(s reconciler.Status) *recObj {
-	o.Status = s
+	if o.UseSet {
+		o.Set = o.Set.Set("r", s)
+	} else {
+		o.Status = s
+	}
 	return o
 }
-func (o *recObj) GetStatus() reconciler.Status { return o.Status }
+func (o *recObj) GetStatus() reconciler.Status {
+	if o.UseSet {
+		return o.Set.Get("r")
+	}
+	return o.Status
+}
 
 var recIDIndex = statedb.Index[*recObj, uint64]{
 	Name:       "id",
@@ -139,6 +155,7 @@ type recExec struct {
 	failing       map[uint64]bool
 	injects       map[uint64][]func()
 	oracleOnly    bool
+	useSet        bool
 	batch         bool
 	minB, maxB    time.Duration
 	roundSize     int
@@ -179,7 +196,7 @@ func (e *recExec) doUpdate(rev statedb.Revision, obj *recObj) error {
 	fail := e.failing[obj.ID]
 	inj := e.injects[obj.ID]
 	delete(e.injects, obj.ID)
-	st := obj.Status
+	st := obj.GetStatus()
 	c := recCall{op: "U", id: obj.ID, data: obj.Data, ok: !fail, at: e.since(), pending: st.ID, kind: st.Kind}
 	e.calls = append(e.calls, c)
 	if !fail {
@@ -290,10 +307,16 @@ func (e *recExec) setup(minB, maxB, roundSize int, batch bool) {
 func (e *recExec) put(id uint64, data int) {
 	wtxn := e.db.WriteTxn(e.table)
 	other := 0
+	obj := &recObj{ID: id, Data: data, UseSet: e.useSet}
 	if old, _, ok := e.table.Get(wtxn, recIDIndex.Query(id)); ok {
 		other = old.Other
+		obj.Set = old.Set.Pending()
+	} else {
+		obj.Set = reconciler.NewStatusSet()
 	}
-	e.table.Insert(wtxn, &recObj{ID: id, Data: data, Other: other, Status: reconciler.StatusPending()})
+	obj.Other = other
+	obj.Status = reconciler.StatusPending()
+	e.table.Insert(wtxn, obj)
 	rev := e.table.Revision(wtxn)
 	// the reference is updated before the commit publishes the write (the
 	// reconciler may react, and run injected writes, as soon as it is visible)
@@ -330,7 +353,7 @@ func (e *recExec) touch(id uint64) {
 			e.ref[id] = r
 		}
 		e.calls = append(e.calls, recCall{op: "change", id: id, at: e.since()})
-		if old.Status.Kind == reconciler.StatusKindError {
+		if old.GetStatus().Kind == reconciler.StatusKindError {
 			// known finding K4: a foreign status-only write to an object that awaits a retry
 			// (its status is Error): the retry's status commit compares against the stale revision
 			e.k4[id] = true
@@ -357,7 +380,7 @@ func (e *recExec) state() string {
 	sort.Strings(cs)
 	var objs []string
 	for o := range e.table.All(e.db.ReadTxn()) {
-		k := map[reconciler.StatusKind]string{reconciler.StatusKindPending: "P", reconciler.StatusKindRefreshing: "R", reconciler.StatusKindDone: "D", reconciler.StatusKindError: "E"}[o.Status.Kind]
+		k := map[reconciler.StatusKind]string{reconciler.StatusKindPending: "P", reconciler.StatusKindRefreshing: "R", reconciler.StatusKindDone: "D", reconciler.StatusKindError: "E"}[o.GetStatus().Kind]
 		objs = append(objs, fmt.Sprintf("%d:%d:%d:%s", o.ID, o.Data, o.Other, k))
 	}
 	ctx, cancel := context.WithCancel(context.Background())
@@ -382,13 +405,13 @@ func (e *recExec) settleOracle(o *Out) {
 		if obj.Data != ref.data || obj.Other != ref.other {
 			o.Fail("C15", "status-write-changed-data", nil, fmt.Sprintf("object %d has data=%d other=%d, the user wrote data=%d other=%d", obj.ID, obj.Data, obj.Other, ref.data, ref.other))
 		}
-		if obj.Status.Kind == reconciler.StatusKindDone {
+		if obj.GetStatus().Kind == reconciler.StatusKindDone {
 			t := e.target[obj.ID]
 			if !t.present || t.data != obj.Data {
 				o.Fail("C15", "done-for-a-version-never-updated", nil, fmt.Sprintf("object %d (data %d) is marked Done but the target holds %+v", obj.ID, obj.Data, t))
 			}
 		}
-		if obj.Status.Kind == reconciler.StatusKindError {
+		if obj.GetStatus().Kind == reconciler.StatusKindError {
 			// the last attempt for this version must have failed
 			last := -1
 			for i, c := range e.calls {
@@ -447,6 +470,7 @@ func (e *recExec) Do(o *Out, f []string) string {
 		maxB, _ := strconv.Atoi(f[2])
 		rs, _ := strconv.Atoi(f[3])
 		e.oracleOnly = !strings.HasPrefix(f[4], "exact")
+		e.useSet = strings.Contains(f[4], "set")
 		e.setup(minB, maxB, rs, strings.HasSuffix(f[4], "-batch"))
 	case "put":
 		id, _ := strconv.ParseUint(f[1], 10, 64)
@@ -514,14 +538,14 @@ func (e *recExec) finalOracle(o *Out) {
 	}
 	for obj := range e.table.All(rtx) {
 		t := e.target[obj.ID]
-		if obj.Status.Kind != reconciler.StatusKindDone || !t.present || t.data != obj.Data {
+		if obj.GetStatus().Kind != reconciler.StatusKindDone || !t.present || t.data != obj.Data {
 			ff := map[string]string{}
 			for k, v := range feat {
 				ff[k] = v
 			}
-			ff["status"] = obj.Status.Kind.String()
+			ff["status"] = obj.GetStatus().Kind.String()
 			ff["foreign_status_write_during_retry"] = strconv.FormatBool(e.k4[obj.ID])
-			o.Fail("C14", "not-converged", ff, fmt.Sprintf("after failures stopped and %v of quiet time object %d (data %d) has status %s and the target holds %+v", 4*e.maxB, obj.ID, obj.Data, obj.Status.Kind, t))
+			o.Fail("C14", "not-converged", ff, fmt.Sprintf("after failures stopped and %v of quiet time object %d (data %d) has status %s and the target holds %+v", 4*e.maxB, obj.ID, obj.Data, obj.GetStatus().Kind, t))
 		}
 	}
 	_ = touched
